@@ -249,6 +249,14 @@ func TestC15(t *testing.T) {
 				c.c15Shared(s)
 				return
 			}
+			if expr == "equivalent-names" {
+				c.c15EquivalentNames(s, "print")
+				return
+			}
+			if rp.Sig == "number-plus-string" {
+				c.c15NumberPlusString(s)
+				return
+			}
 			if f, err := strconv.ParseFloat(strings.Trim(expr, "()"), 64); err == nil && !strings.ContainsAny(expr, "|&<\"") {
 				c.c15Value(s, "replay", numCase(f), false)
 				return
@@ -495,45 +503,10 @@ func TestC15(t *testing.T) {
 		})
 		// + between a number and a string splices whatever the string spells — digits, signs, exponents, the
 		// names of other values: the text is what দেখাও prints for the number next to what it prints for the string
-		c.Sub("numeric-looking-strings", func(s *Sub) {
-			P := bn.KwPrint
-			nums := []string{"7", "0", "(-1.5)", "(10 ** 21)", "0.1", "((2 ** 1024) - (2 ** 1024))", "(2 ** 1024)", "(2 ** 53)", "(1 << 62)", "(-0)", "৩", "1000000", "0.000001", "(7 % 4)", "(1 << 3)"}
-			strs := []string{"5", "x", "০", "4.0", "nan", " 1", "", "e3", ".5", "-2", "+3", "0x10", "1e2", "১২.৫", "Inf", bn.KwTrue, "nil", "0", "00", "5 ", "\\t5", "1_0", "٣"}
-			var k int64
-			for _, n := range nums {
-				for _, t := range strs {
-					k++
-					if !c.Mine(k) {
-						continue
-					}
-					q := "\"" + t + "\""
-					src := P + " " + n + ";\n" + P + " " + q + ";\n" + P + " " + n + " + " + q + ";\n" + P + " " + q + " + " + n + ";\n" + P + " \"\" + " + n + " + " + q + ";\n" +
-						P + " [" + n + " + " + q + ", " + q + " + " + n + "];\n" + P + " (" + n + " + " + q + ") == (\"\" + " + n + " + " + q + ");\n" + P + " \"end\";\n"
-					r := c.RunB(src, "")
-					c.Ev.EnumCase("numeric-looking-strings", true, func() string { return n + " + " + q }, "number-plus-string")
-					ln := strings.Split(r.Out, "\n")
-					bad := ""
-					switch {
-					case r.Class() != "clean" || len(ln) != 9 || ln[7] != "end":
-						bad = "the program did not run to its end printing 8 lines"
-					case ln[2] != ln[0]+ln[1]:
-						bad = fmt.Sprintf("number + string printed %q; the number prints %q and the string %q", ln[2], ln[0], ln[1])
-					case ln[3] != ln[1]+ln[0]:
-						bad = fmt.Sprintf("string + number printed %q; the string prints %q and the number %q", ln[3], ln[1], ln[0])
-					case ln[4] != ln[0]+ln[1]:
-						bad = fmt.Sprintf("\"\" + number + string printed %q; the number prints %q and the string %q", ln[4], ln[0], ln[1])
-					case ln[5] != "["+ln[0]+ln[1]+" "+ln[1]+ln[0]+"]":
-						bad = fmt.Sprintf("inside an array the two splices print %q", ln[5])
-					case ln[6] != "true":
-						bad = "number + string is not equal to \"\" + number + string"
-					}
-					if bad != "" {
-						s.Violation(Replay{Check: "print", Sig: "number-plus-string", Source: src, Extra: map[string]string{"expr": n + " + " + q}, Note: bad, Observed: r.Describe()})
-					}
-				}
-			}
-			c.Ev.MarkExhaustive(fmt.Sprintf("%d numbers x %d strings (digits in three scripts, signs, exponents, blanks, names of other values) spliced both ways", len(nums), len(strs)))
-		})
+		c.Sub("numeric-looking-strings", func(s *Sub) { c.c15NumberPlusString(s) })
+		// property names that are canonically equivalent but differently encoded are different names: an object
+		// that was given both shows both (the printed names look alike, being written in NFC), with their own values
+		c.Sub("equivalent-property-names", func(s *Sub) { c.c15EquivalentNames(s, "print") })
 		c.Sub("shared-containers", func(s *Sub) {
 			if c.Shard != 0 {
 				return
@@ -641,4 +614,91 @@ func (c *Ctx) c15Shared(s *Sub) {
 			s.Violation(Replay{Check: "print", Sig: "shared-container", Source: src, Extra: map[string]string{"expr": "shared"}, Note: bad, Observed: r.Describe()})
 		}
 	}
+}
+
+func (c *Ctx) c15NumberPlusString(s *Sub) {
+	P := bn.KwPrint
+	nums := []string{"7", "0", "(-1.5)", "(10 ** 21)", "0.1", "((2 ** 1024) - (2 ** 1024))", "(2 ** 1024)", "(2 ** 53)", "(1 << 62)", "(-0)", "৩", "1000000", "0.000001", "(7 % 4)", "(1 << 3)"}
+	strs := []string{"5", "x", "০", "4.0", "nan", " 1", "", "e3", ".5", "-2", "+3", "0x10", "1e2", "১২.৫", "Inf", bn.KwTrue, "nil", "0", "00", "5 ", "\\t5", "1_0", "٣"}
+	var k int64
+	for _, n := range nums {
+		for _, t := range strs {
+			k++
+			if !c.Mine(k) {
+				continue
+			}
+			q := "\"" + t + "\""
+			src := P + " " + n + ";\n" + P + " " + q + ";\n" + P + " " + n + " + " + q + ";\n" + P + " " + q + " + " + n + ";\n" + P + " \"\" + " + n + " + " + q + ";\n" +
+				P + " [" + n + " + " + q + ", " + q + " + " + n + "];\n" + P + " (" + n + " + " + q + ") == (\"\" + " + n + " + " + q + ");\n" + P + " \"end\";\n"
+			r := c.RunB(src, "")
+			c.Ev.EnumCase("numeric-looking-strings", true, func() string { return n + " + " + q }, "number-plus-string")
+			ln := strings.Split(r.Out, "\n")
+			bad := ""
+			switch {
+			case r.Class() != "clean" || len(ln) != 9 || ln[7] != "end":
+				bad = "the program did not run to its end printing 8 lines"
+			case ln[2] != ln[0]+ln[1]:
+				bad = fmt.Sprintf("number + string printed %q; the number prints %q and the string %q", ln[2], ln[0], ln[1])
+			case ln[3] != ln[1]+ln[0]:
+				bad = fmt.Sprintf("string + number printed %q; the string prints %q and the number %q", ln[3], ln[1], ln[0])
+			case ln[4] != ln[0]+ln[1]:
+				bad = fmt.Sprintf("\"\" + number + string printed %q; the number prints %q and the string %q", ln[4], ln[0], ln[1])
+			case ln[5] != "["+ln[0]+ln[1]+" "+ln[1]+ln[0]+"]":
+				bad = fmt.Sprintf("inside an array the two splices print %q", ln[5])
+			case ln[6] != "true":
+				bad = "number + string is not equal to \"\" + number + string"
+			}
+			if bad != "" {
+				s.Violation(Replay{Check: "print", Sig: "number-plus-string", Source: src, Extra: map[string]string{"expr": n + " + " + q}, Note: bad, Observed: r.Describe()})
+			}
+		}
+	}
+	c.Ev.MarkExhaustive(fmt.Sprintf("%d numbers x %d strings (digits in three scripts, signs, exponents, blanks, names of other values) spliced both ways", len(nums), len(strs)))
+}
+
+func (c *Ctx) c15EquivalentNames(s *Sub, check string) {
+	P := bn.KwPrint
+	pairs := [][2]string{{"আ\u09df", "আ\u09af\u09bc"}, {"ক\u09cb", "ক\u09c7\u09be"}, {"ক\u09cc", "ক\u09c7\u09d7"}, {"ব\u09dc", "ব\u09a1\u09bc"}, {"গ\u09dd", "গ\u09a2\u09bc"}, {"caf\u00e9", "cafe\u0301"}, {"\u00c5ngstrom", "A\u030angstrom"}, {"\u212bx", "\u00c5x"}, {"nan", "NaN"}, {"k1", "k\u09e7"}}
+	var k int64
+	for _, pr := range pairs {
+		for form := 0; form < 4; form++ {
+			k++
+			if !c.Mine(k) {
+				continue
+			}
+			a, b := pr[0], pr[1]
+			var src string
+			switch form {
+			case 0:
+				src = bn.KwVar + " o = {" + a + ": 1, " + b + ": 2, plain: 3};\n"
+			case 1:
+				src = bn.KwVar + " o = {plain: 3};\no." + b + " = 2;\no." + a + " = 1;\n"
+			case 2:
+				src = bn.KwVar + " o = {" + b + ": 2, plain: 3};\no." + a + " = 1;\n"
+			default:
+				src = bn.KwVar + " o = {" + a + ": 1, plain: 3, " + b + ": 9};\no." + b + " = 2;\n"
+			}
+			src += P + " o;\n" + P + " " + bn.BLen + "(" + bn.BKeys + "(o));\n" + P + " [o." + a + ", o." + b + ", o.plain];\n" + P + " [o];\n" + P + " \"end\";\n"
+			r := c.RunB(src, "")
+			c.Ev.EnumCase("equivalent-property-names", true, func() string { return fmt.Sprintf("%q / %q form %d", a, b, form) }, "equivalent-names")
+			ln := strings.Split(r.Out, "\n")
+			bad := ""
+			switch {
+			case r.Class() != "clean" || len(ln) != 6 || ln[4] != "end":
+				bad = "the program did not run to its end printing 5 lines"
+			case strings.Count(ln[0], ":") != 3:
+				bad = fmt.Sprintf("the object has three properties, %q shows %d", ln[0], strings.Count(ln[0], ":"))
+			case ln[1] != "3":
+				bad = fmt.Sprintf("the object has three keys, the key listing has %s", ln[1])
+			case ln[2] != "[1 2 3]":
+				bad = fmt.Sprintf("the three properties hold 1, 2 and 3; read back: %s", ln[2])
+			case ln[3] != "["+ln[0]+"]":
+				bad = fmt.Sprintf("inside an array the object prints %q, alone %q", ln[3], ln[0])
+			}
+			if bad != "" {
+				s.Violation(Replay{Check: check, Sig: "equivalent-names", Source: src, Extra: map[string]string{"expr": "equivalent-names"}, Note: bad, Observed: r.Describe()})
+			}
+		}
+	}
+	c.Ev.MarkExhaustive(fmt.Sprintf("%d pairs of names that are equivalent under some normalisation or case folding but differ in code points x 4 ways of giving both to one object", len(pairs)))
 }
